@@ -49,7 +49,25 @@ fn binding_values_equal(candidate: &Value, outer: &Value) -> bool {
     {
         return candidate_edge == outer_edge;
     }
-    candidate == outer
+    binding_plain_values_equal(candidate, outer)
+}
+
+/// Identity of bound values (not Cypher `=`): NaN is the same binding as NaN, also inside
+/// lists and maps, otherwise a row carrying NaN never finds its own matches again.
+fn binding_plain_values_equal(candidate: &Value, outer: &Value) -> bool {
+    match (candidate, outer) {
+        (Value::Float(a), Value::Float(b)) => a == b || (a.is_nan() && b.is_nan()),
+        (Value::List(a), Value::List(b)) => {
+            a.len() == b.len() && a.iter().zip(b).all(|(x, y)| binding_values_equal(x, y))
+        }
+        (Value::Map(a), Value::Map(b)) => {
+            a.len() == b.len()
+                && a.iter()
+                    .zip(b)
+                    .all(|((ka, x), (kb, y))| ka == kb && binding_values_equal(x, y))
+        }
+        _ => candidate == outer,
+    }
 }
 
 #[cfg(test)]
